@@ -263,7 +263,7 @@ Record InvV (extra : N -> nat) (s : machine) : Prop := {
   b_nodup : NoDup (map v_id (ms_vers s));
   b_fresh : forall v, In v (ms_vers s) -> (v_id v < ms_next s)%N;
   b_arc : forall v, In v (ms_vers s) -> ind (N.eqb (v_id v) (ms_cur s)) + ver_cnt s (v_id v) + extra (v_id v) <= v_arc v;
-  b_cur : exists v, In v (ms_vers s) /\ v_id v = ms_cur s;
+  b_curv : exists v, In v (ms_vers s) /\ v_id v = ms_cur s;
   b_sc : forall sc, In sc (ms_scans s) -> sc_holds sc = true /\ exists v, In v (ms_vers s) /\ v_id v = sc_ver sc /\
            xok (fun m => In m (sc_mems sc)) (fun f => In f (v_files v)) (sc_x sc)
 }.
@@ -432,7 +432,7 @@ Proof.
   - intros w Hw. apply in_map_iff in Hw. destruct Hw as [w0 [<- Hw]]. rewrite inc_arc_id.
     pose proof (b_arc _ _ I w0 Hw) as Ha. unfold ver_cnt in *. ms. unfold inc_arc.
     destruct (N.eqb (v_id w0) v); cbn [v_arc ind] in *; lia.
-  - destruct (b_cur _ _ I) as [w [Hw Hid]]. exists (inc_arc v w). split; [now apply in_map|]. now rewrite inc_arc_id.
+  - destruct (b_curv _ _ I) as [w [Hw Hid]]. exists (inc_arc v w). split; [now apply in_map|]. now rewrite inc_arc_id.
   - intros sc Hsc. destruct (b_sc _ _ I sc Hsc) as [Hh [w [Hw [Hid Hx]]]]. split; [exact Hh|].
     exists (inc_arc v w). split; [now apply in_map|]. rewrite inc_arc_id. split; [exact Hid|].
     eapply xok_weaken; [| |exact Hx]; [auto|]. intros f Hf. now rewrite inc_arc_files.
@@ -465,7 +465,7 @@ Proof.
     apply in_map_iff in Hw. destruct Hw as [w0 [<- Hw]]. rewrite dec_arc_id. now apply (b_fresh _ _ I).
   - intros w Hw. rewrite arc_drop_vers in Hw. apply filter_In in Hw. destruct Hw as [Hw _].
     apply in_map_iff in Hw. destruct Hw as [w0 [<- Hw]]. rewrite dec_arc_id. now apply Harc.
-  - destruct (b_cur _ _ I) as [w [Hw Hid]]. exists (dec_arc v w). split; [|now rewrite dec_arc_id].
+  - destruct (b_curv _ _ I) as [w [Hw Hid]]. exists (dec_arc v w). split; [|now rewrite dec_arc_id].
     apply Hstay; [exact Hw|]. rewrite Hid, N.eqb_refl. cbn [ind]. lia.
   - intros sc Hsc. destruct (b_sc _ _ I sc Hsc) as [Hh [w [Hw [Hid Hx]]]]. split; [exact Hh|].
     exists (dec_arc v w). split; [|rewrite dec_arc_id; split; [exact Hid|]].
@@ -573,7 +573,7 @@ Proof.
       + cbn [v_id v_arc nv]. rewrite N.eqb_refl. cbn [ind].
         pose proof (ver_cnt_fresh extra s (ms_next s) IV Hfresh) as Hz. unfold ver_cnt in Hz. rewrite Hz, Hnew.
         assert (N.eqb (ms_next s) old = false) as E.
-        { apply N.eqb_neq. destruct (b_cur _ _ IV) as [w [Hw Hid]]. intros Heq. apply (Hfresh w Hw). unfold old in Heq. congruence. }
+        { apply N.eqb_neq. destruct (b_curv _ _ IV) as [w [Hw Hid]]. intros Heq. apply (Hfresh w Hw). unfold old in Heq. congruence. }
         rewrite E. cbn [ind]. lia.
     - exists nv. split; [apply in_or_app; right; now left|reflexivity].
     - intros sc Hsc. destruct (b_sc _ _ IV sc Hsc) as [Hh [w [Hw [Hid Hx]]]]. split; [exact Hh|].
@@ -717,7 +717,7 @@ Proof.
   assert (ms_disk s2 = ms_disk s1) as Hd2 by reflexivity.
   destruct (install_version_inv _ levels s2 IV2 IR2) as [IV3 [IR3 Hc3]].
   - rewrite Hc2, N.eqb_refl. cbn. lia.
-  - rewrite Hn2. destruct (b_cur _ _ IV) as [w [Hw Hid]]. pose proof (b_fresh _ _ IV w Hw) as Hlt.
+  - rewrite Hn2. destruct (b_curv _ _ IV) as [w [Hw Hid]]. pose proof (b_fresh _ _ IV w Hw) as Hlt.
     assert (N.eqb (ms_next s) old = false) as E by (apply N.eqb_neq; unfold old, s1; ms; lia). rewrite E. reflexivity.
   - intros f Hf. rewrite Hd2. unfold s1. ms. now apply B.
   - intros f Hf d Hd Hid. rewrite Hd2 in Hd. unfold s1 in Hd. ms. destruct (A d Hd) as [[_ H]|[Hn _]]; [exact H|].
@@ -1146,7 +1146,7 @@ Proof.
     destruct (Hmems m Hm) as [H|H]; [specialize (Hc (or_introl (eq_trans Hid H)))|rewrite <- Hid in H; specialize (Hc (or_intror H))]; lia. }
   rewrite Hfa.
   (* the version it is opened on *)
-  destruct (b_cur _ _ IV1) as [vo [Hvo Hvid]]. change (ms_cur s1) with (ms_cur s) in Hvid.
+  destruct (b_curv _ _ IV1) as [vo [Hvo Hvid]]. change (ms_cur s1) with (ms_cur s) in Hvid.
   assert (cur_levels s2 = v_levels vo) as Hlv.
   { unfold cur_levels. rewrite E3. rewrite (find_ver_nodup s2 (ms_cur s) vo); [reflexivity| | |exact Hvid]; rewrite E1; [apply (b_nodup _ _ IV1)|exact Hvo]. }
   rewrite Hlv.
